@@ -716,6 +716,8 @@ SSVectorBase<R>& SSVectorBase<R>::assign2productShort(const SVSetBase<S>& A,
             // change an existing NZ-element, so don't increase the counter.
             if(oldval == 0)
                ++nonzero_idx;
+            else if(oldval == R(SOPLEX_VECTOR_MARKER))
+               oldval = 0;   // the marker stands for an exact zero (matters in exact arithmetic)
 
             // Add the current product x[i] * A[i][j]; if oldval was
             // SOPLEX_VECTOR_MARKER before, it does not hurt because SOPLEX_VECTOR_MARKER is really small.
